@@ -82,3 +82,39 @@ d = open(dp).read()
 if "<!-- STATUS-BEGIN -->" in d:
     d = re.sub(r"(<!-- STATUS-BEGIN -->).*?(<!-- STATUS-END -->)", lambda m: m.group(1) + "\n" + body + m.group(2), d, flags=re.S)
     open(dp, "w").write(d)
+
+# ---- seeded-change statistics paragraph (DESIGN 10), generated
+tot = len(glob.glob(os.path.join(ROOT, "seeded", "*", "meta.json")))
+c_once = c_str = c_nb = c_part = c_no = 0
+outside = []
+for f in sorted(glob.glob(os.path.join(ROOT, "seeded", "*", "meta.json"))):
+    x = json.load(open(f)); d = x.get("detected"); by = x.get("detected_by", "")
+    if d == "yes" and "after strengthening" in by: c_str += 1
+    elif d == "yes" and by.startswith("by C"): c_nb += 1
+    elif d == "yes": c_once += 1
+    elif d == "partial": c_part += 1
+    else:
+        c_no += 1
+        if "OUTSIDE" in by: outside.append(os.path.basename(os.path.dirname(f)))
+para = ("**How to read the table** (numbers regenerated from `seeded/*/meta.json`).  %d seeded changes, produced in up to three "
+ "independent rounds of three per property by sub-agents that saw only the property's text and a scratch worktree (later rounds were "
+ "told the earlier rounds' ideas and asked for other mechanisms).  Every change compiles, passes the unedited test suite and comes "
+ "with a demonstration test that fails with it and passes without it (re-confirmed by `tools/validate_seed.sh` in a scratch worktree "
+ "before it was kept).  %d were caught by the owning property's quick check as it stood; %d were **missed at first** and are caught "
+ "after the check was strengthened - always the generator (an input class nobody had thought of: white-space-only query text, "
+ "non-ASCII white space in block strings, typed-nil errors next to a value, one field node in two merged lists, lists of non-null "
+ "lists, item nullability in response shapes, variables with defaults and an empty variable map, argument defaults differing between "
+ "implementations of one interface, frames pipelined behind a closing trigger, server-initiated close during a handler call, a mute "
+ "peer, a slow reader, chunked request bodies, id reuse on one socket, custom relationship resolvers sharing a map, features derived "
+ "from the init hook, gated connection edge fields, deprecated members, two feature sets on one schema value, error message texts), "
+ "never a loosened oracle; %d break a mechanism that is another property's anchored code and are caught by that property's check "
+ "(`detected_by` says which); %d are *partial* (so far caught by a neighbouring check only) and %d are *no*%s.  The misses are the most "
+ "useful output of this exercise: each one is written into the owning check's design note as a rehearsal row with the replay key that "
+ "now catches it.  Two seeders also reported crashes of the UNCHANGED tree they stumbled on (a non-pointer error value delivered "
+ "through a promise; an explicit null for `includeDeprecated`): both were reproduced, repaired by `fix:` commits and are now covered "
+ "by generator families.\n") % (tot, c_once, c_str, c_nb, c_part, c_no,
+   (" (of which %s judged outside their property's quantifier and recorded as such)" % ", ".join(outside)) if outside else "")
+d = open(dp).read()
+if "<!-- SEEDSTAT-BEGIN -->" in d:
+    d = re.sub(r"(<!-- SEEDSTAT-BEGIN -->).*?(<!-- SEEDSTAT-END -->)", lambda m: m.group(1) + "\n" + para + m.group(2), d, flags=re.S)
+    open(dp, "w").write(d)
